@@ -166,6 +166,17 @@ CHECKS["C06"] = dict(
    note="Trusted: Coq kernel; Model/HashCons.v hand-written. Known finding: annotations enter the key only through their Python hash (T(-1)/T(-2) "
         "conflated). One defect repaired (annotated BVV served from the constant cache).")
 
+CHECKS["C18"] = dict(
+   text="Machine-checked proof (Coq) for the solver part: over Model/Pickle.v (children, unchecked set, unsat flag of a SolverComposite; child "
+        "satisfiability an oracle) check_satisfiability is exact whenever every child outside the unchecked set is known satisfiable "
+        "(C18_check_exact); after the __getstate__/__setstate__ round trip that invariant holds again and the answer is the exact one whatever "
+        "had been checked before (C18_roundtrip); the pinned __setstate__ broke it (C18_pinned_refuted -- the defect was repaired). Tie: real "
+        "composite states are fed to the extracted check before and after a real pickle round trip. Base.__reduce__, the state chains of the "
+        "other frontends and cross-process round trips are NOT modelled: expressions (annotated) are round-tripped in-process and into fresh "
+        "processes with other hash seeds, solver histories continue after interleaved round trips against enumeration (testing).",
+   design="5/C18", technique="Coq invariant proof for the composite restore; state correspondence; in-process and cross-process round-trip tests",
+   note="Trusted: Coq kernel; Model/Pickle.v hand-written. Floats and strings not covered. One defect repaired (unchecked children forgotten).")
+
 REASONS = {}
 DEFAULT_REASON = "not claimed yet: its Coq model and correspondence harness are not built in this snapshot (see DESIGN.md section 10 for the order); no other technique is substituted"
 
